@@ -58,8 +58,12 @@ impl Prop for C11 {
         let mut out = Outcome::new();
         let g = c.graphemes;
         let s = c.s.as_str();
+        // the same text in the other unit first: an answer must not depend on what was asked before
+        let _ = (word_boundaries(s, !g), full(s, !g));
         let cleaned = clean(s, g);
+        let _ = clean(s, !g);
         let wb = word_boundaries(s, g);
+        let _ = remove(s, !g);
         let rem = remove(s, g);
         let ful = full(s, g);
         // Grapheme mode outside the segmentation-stable domain: strings in which no cluster
